@@ -436,7 +436,33 @@ func (s *SdcpbUpdateDedup) Updates() []*sdcpb.Update {
 
 func (d *Datastore) validatePath(ctx context.Context, p *sdcpb.Path) error {
 	_, err := d.schemaClient.GetSchemaSdcpbPath(ctx, p)
-	return err
+	if err != nil {
+		return err
+	}
+	// the schema lookup goes by element names: the keys given with
+	// an element have to be keys of that list as well
+	for i, pe := range p.GetElem() {
+		if len(pe.GetKey()) == 0 {
+			continue
+		}
+		rsp, err := d.schemaClient.GetSchemaSdcpbPath(ctx, &sdcpb.Path{Elem: p.GetElem()[:i+1]})
+		if err != nil {
+			return err
+		}
+		for k := range pe.GetKey() {
+			known := false
+			for _, ks := range rsp.GetSchema().GetContainer().GetKeys() {
+				if ks.GetName() == k {
+					known = true
+					break
+				}
+			}
+			if !known {
+				return fmt.Errorf("%q is not a key of %q", k, pe.GetName())
+			}
+		}
+	}
+	return nil
 }
 
 func (d *Datastore) WatchDeviations(req *sdcpb.WatchDeviationRequest, stream sdcpb.DataServer_WatchDeviationsServer) error {
